@@ -579,6 +579,17 @@ def transport_parts(ctx):
                     nm = P.self_attr(a, sn)
                     if nm and nm in T.methods:
                         roles.setdefault('on_disc', T.methods[nm])
+    if 'incoming' not in roles:
+        # fall back: a message callback bound with the connection object whose handler looks its message up in a table
+        for m in P.methods_of(T):
+            for n in ast.walk(m.node):
+                if isinstance(n, ast.Call) and isinstance(n.func, ast.Attribute) and n.func.attr == 'setOnMessageReceivedCallback' and n.args \
+                        and isinstance(n.args[0], ast.Call) and unparse(n.args[0].func).endswith('partial') and n.args[0].args:
+                    nm = P.self_attr(n.args[0].args[0], m.self_name)
+                    cand = T.methods.get(nm) if nm else None
+                    if cand is not None and len(cand.params) >= 3 and (_keyed_tables(P, cand, cand.params[-1])
+                                                                       or any(isinstance(x, ast.Constant) and x.value == 'readonly' for x in ast.walk(cand.node))):
+                        roles.setdefault('incoming', cand)
     for k in ('incoming', 'should_connect', 'on_disc'):
         if k not in roles:
             raise AnalysisError('TCPTransport: role `%s` not found' % k)
